@@ -1260,3 +1260,25 @@ def stream_name_is_nick_and_table_forward(rng):
         stmts = [pair[1], ["obj", first], pair[0]]
     return {"version": rng.choice([2, 3]), "options": [], "stmts": stmts}, \
         ["forward_ref", "nick", "name_collisions", "name_is_nick_and_table_forward"]
+
+
+def stream_once_idle_first(rng):
+    """a just_once template that makes NO row in the first iteration (its count is a formula of the driver
+    row's id: 0 in iteration 1, positive later; or of a variable): just_once means "the first iteration
+    only", so it never makes a row - neither in later iterations nor in continued runs; next to a just_once
+    template that does make its row, and readers of both tables"""
+    a = ["attr", ["var", "A"], "id"]
+    cnt = rng.choice([["sub", a, ["int", 1]],                                   # 0,1,2,..
+                      ["mul", ["sub", a, ["int", 1]], ["int", 2]],               # 0,2,4
+                      ["sub", ["int", 1], ["mul", ["sub", a, ["int", 2]], ["sub", a, ["int", 2]]]]])   # 0,1,0
+    nick = rng.choice(["jj", None])
+    stmts = [["obj", _T("A", None, False, [("f0", ["int", 1])])],
+             ["obj", _T("J", nick, True, [("f1", _F(["e", a]))], count=_F(["e", cnt]))]]
+    if rng.random() < 0.6:
+        stmts.append(["obj", _T("K", "kk", True, [("f2", ["int", 5])])])
+    if rng.random() < 0.5:      # an ordinary template of the idle table: its ids must stay dense
+        stmts.append(["obj", _T("J", None, False, [("f1", ["int", 70])])])
+    if rng.random() < 0.5 and any(s[1]["table"] == "K" for s in stmts if s[0] == "obj"):
+        stmts.append(["obj", _T("C", None, False, [("k", ["ref", "kk"]), ("v", _F(["e", ["attr", ["var", "kk"], "f2"]]))])])
+    return {"version": rng.choice([2, 3]), "options": [], "stmts": stmts}, \
+        ["just_once", "count_formula", "once_idle_first"] + (["nick"] if nick else [])
